@@ -325,6 +325,26 @@ func (t *TypeGenerator) Disjoint() []*TypeGenerator {
 	return t.disjoint
 }
 
+// AddDisjoint marks this type and the other type as disjoint with each other.
+// Links that already exist are left alone. It must be called before
+// Definition is called.
+func (t *TypeGenerator) AddDisjoint(other *TypeGenerator) {
+	has := func(l []*TypeGenerator, x *TypeGenerator) bool {
+		for _, e := range l {
+			if e == x {
+				return true
+			}
+		}
+		return false
+	}
+	if !has(t.disjoint, other) {
+		t.disjoint = append(t.disjoint, other)
+	}
+	if !has(other.disjoint, t) {
+		other.disjoint = append(other.disjoint, t)
+	}
+}
+
 // Properties returns the Properties of this type, mapped by their property
 // name.
 func (t *TypeGenerator) Properties() map[string]Property {
